@@ -16,6 +16,8 @@ verus! {
 //@include ../shim/bins_types.rs
 //@include ../shim/num.rs
 //@include ../shim/strategies.rs
+//@include ../shim/iterchain.rs
+//@include ../shim/gridbuilder.rs
 
 impl From<MinMaxError> for BinsBuildError {
 //@extract file=src/histogram/errors.rs impl=From:BinsBuildError fn=from nth=1 id=from_minmax_error tags=C17,C12
@@ -208,6 +210,29 @@ where
             r matches Ok(s) ==> exists|kmin: int, kmax: int| #![trigger a@[kmin], a@[kmax]] is_min_at(a@, kmin) && is_max_at(a@, kmax)
                 && auto_builder(s).min == a@[kmin] && auto_builder(s).max == a@[kmax] && !le(auto_builder(s).bin_width, T::zero_spec()), // [C12]
 //@binop cmp 0 verif_val
+//@end
+}
+
+impl<A, B> GridBuilder<B>
+where
+    A: Ord,
+    B: BinsBuildingStrategy<Elem = A>,
+{
+//@extract file=src/histogram/grid.rs impl=GridBuilder fn=from_array id=GridBuilder::from_array tags=C12,C17 body_tags=C12
+//@sig
+    pub fn from_array(array: &Obs2<A>) -> (r: Result<Self, BinsBuildError>)
+//@spec
+        ensures
+            // one strategy per column, each the result of the strategy's own from_array on that column ...
+            r matches Ok(g) ==> g.bin_builders@.len() == array.slices(1).len()
+                && forall|j: int| 0 <= j < g.bin_builders@.len() ==> B::from_array_post(array.slices(1)[j], Ok::<B, BinsBuildError>(#[trigger] g.bin_builders@[j])), // [C12,C17]
+            // ... or the error some column's strategy reports (std's collect: the first one in index order)
+            r matches Err(e) ==> exists|j: int| 0 <= j < array.slices(1).len() && B::from_array_post(#[trigger] array.slices(1)[j], Err::<B, BinsBuildError>(e)), // [C12,C17]
+//@closure 0
+|data: ArrayN<A, Ix1>| -> (o: Result<B, BinsBuildError>) ensures B::from_array_post(data@, o)
+//@replace_text
+.collect::<Result<Vec<B>, BinsBuildError>>()
+.verif_collect_result()
 //@end
 }
 
